@@ -339,6 +339,15 @@ func (f *Frame) numberCalls() {
 				cc = c.Common()
 			case *ssa.Go:
 				cc = c.Common()
+			case *ssa.Send:
+				// channel sends are program points of their own: "send#k" (k-th send in source order)
+				sp := c.Pos()
+				if !sp.IsValid() {
+					sp = last
+				}
+				seq++
+				sites = append(sites, site{ins, nil, sp, seq})
+				continue
 			}
 			if cc == nil {
 				continue
@@ -394,6 +403,11 @@ func (f *Frame) numberCalls() {
 	})
 	counts := map[string]int{}
 	for _, s := range sites {
+		if s.cc == nil {
+			counts["<send>"]++
+			f.callOrd[s.ins] = fmt.Sprintf("send#%d", counts["<send>"])
+			continue
+		}
 		n := calleeShort(s.cc)
 		counts[n]++
 		f.callOrd[s.ins] = fmt.Sprintf("call %s#%d", n, counts[n])
